@@ -280,7 +280,7 @@ impl Property for C14 {
         "C14"
     }
     fn rule(&self) -> String {
-        "cases: seeds (empty, short literals, Keccak block-edge lengths, long patterns), seed pairs differing in one byte / by a suffix / only beyond byte 32 or 136, and unseeded invocations; \
+        "fixed part also regenerates the seed table from eight threads (3000 rounds quick / 30000 thorough) while eight further threads hash 3..8-element vectors and byte strings with the same library; cases: seeds (empty, short literals, Keccak block-edge lengths, long patterns), seed pairs differing in one byte / by a suffix / only beyond byte 32 or 136, and unseeded invocations; \
          each seeded case is compared on 3 entry points x 2 variants against ChaCha20(Keccak_ref(seed)) + documented field sampling + reference Poseidon; the last 24 identities handed out through the C interface are re-read after every later C call and must still hold the bytes they were handed out with; \
          non-trivial = seed length not in {10,17} (the two pinned by the suite), any pair, any unseeded batch; distinct by case content".into()
     }
@@ -434,6 +434,53 @@ impl Property for C14 {
         *stats.labels.entry("concurrent-16-threads".into()).or_default() += 1;
         if bad.load(std::sync::atomic::Ordering::SeqCst) {
             return Some(("seeded identities differ between concurrent threads and the sequential run".into(), None));
+        }
+        // the same seeds from eight threads while eight further threads of the process use the library's
+        // other entry points (Poseidon over 3..8 elements, hash-to-field): generation is a function of
+        // the seed alone whatever else the process is doing
+        let done = std::sync::atomic::AtomicBool::new(false);
+        let rounds = ctx.tier.pick(3000usize, 30000usize);
+        let contained = guarded(|| std::thread::scope(|sc| {
+            let mut gens_h = vec![];
+            for _ in 0..8 {
+                gens_h.push(sc.spawn(|| {
+                    for _ in 0..rounds {
+                        let got: Vec<_> = seeds.iter().map(|s| rln::protocol::extended_seeded_keygen(s)).collect();
+                        if got != seq {
+                            bad.store(true, std::sync::atomic::Ordering::SeqCst);
+                            break;
+                        }
+                    }
+                }));
+            }
+            for k in 0..8u64 {
+                let done = &done;
+                sc.spawn(move || {
+                    let mut i = k;
+                    while !done.load(std::sync::atomic::Ordering::Relaxed) {
+                        let n = 3 + (i % 6) as usize;
+                        let v: Vec<ark_bn254::Fr> = (0..n).map(|j| ark_bn254::Fr::from(i + j as u64)).collect();
+                        std::hint::black_box(rln::hashers::poseidon_hash(&v));
+                        if i % 16 == 0 {
+                            std::hint::black_box(rln::hashers::hash_to_field(&i.to_le_bytes()));
+                        }
+                        i += 1;
+                    }
+                });
+            }
+            for h in gens_h {
+                let _ = h.join();
+            }
+            done.store(true, std::sync::atomic::Ordering::SeqCst);
+        }));
+        if let Err(p) = contained {
+            done.store(true, std::sync::atomic::Ordering::SeqCst);
+            return Some((format!("a thread panicked while identities were generated next to other hashing threads: {}", p.0), None));
+        }
+        stats.evaluations += 8 * rounds as u64 * seeds.len() as u64;
+        *stats.labels.entry("concurrent-with-other-entry-points".into()).or_default() += 1;
+        if bad.load(std::sync::atomic::Ordering::SeqCst) {
+            return Some(("seeded extended identities generated while other threads hash wider inputs differ from the sequential run".into(), None));
         }
         let mut v = all_secrets.into_inner().unwrap();
         let n0 = v.len();
